@@ -47,14 +47,6 @@ Section Lists.
   Qed.
   Lemma len_insert l i y : length (<[i:=y]> l) = length l.
   Proof. revert i; induction l; intros [|i]; simpl; auto. Qed.
-  Lemma cnt_filter p (q : A → bool) l :
-    cnt p (List.filter q l) + cnt p (List.filter (λ x, negb (q x)) l) = cnt p l.
-  Proof. induction l as [|x l IH]; simpl; [lia|]. destruct (q x); simpl; rewrite <- IH; lia. Qed.
-  Lemma len_filter (q : A → bool) l :
-    length (List.filter q l) + length (List.filter (λ x, negb (q x)) l) = length l.
-  Proof. induction l as [|x l IH]; simpl; [lia|]. destruct (q x); simpl; rewrite <- IH; lia. Qed.
-  Lemma cnt_fmap {B} (g : A → B) (p : B → bool) l : cnt p (g <$> l) = cnt (λ x, p (g x)) l.
-  Proof. induction l as [|x l IH]; [reflexivity|]. cbn. f_equal. exact IH. Qed.
   Lemma Forall_delete_ (P : A → Prop) l i : Forall P l → Forall P (delete i l).
   Proof. intros H. rewrite delete_take_drop. apply Forall_app; split; [apply Forall_take|apply Forall_drop]; auto. Qed.
   Lemma Forall_insert_ (P : A → Prop) l i y : Forall P l → P y → Forall P (<[i:=y]> l).
@@ -64,8 +56,6 @@ Section Lists.
       constructor; [auto|apply Forall_drop; auto].
     - rewrite list_insert_ge by lia. auto.
   Qed.
-  Lemma cnt_zero_nil p l : (∀ x, p x = true) → cnt p l = 0 → l = [].
-  Proof. intros Hp. destruct l as [|x l]; simpl; [auto|]. rewrite Hp. simpl. lia. Qed.
 End Lists.
 
 (* ---- the invariant ---------------------------------------------------------------------- *)
@@ -90,9 +80,6 @@ Definition inv (c : fcfg) (st : fstate) : Prop := core c st ∧ arr_ok st.
 
 Lemma inv_init c : inv c finit.
 Proof. split; [split; cbn; auto; try lia|intros e; reflexivity]. Qed.
-
-Lemma len_fmap {A B} (f : A → B) (l : list A) : length (f <$> l) = length l.
-Proof. induction l; cbn; auto. Qed.
 
 Ltac unf := unfold waiting, nsent, inflight, todo, skip, nentered, narrived, outstanding, held, holding, calling in *.
 
@@ -400,4 +387,28 @@ Theorem semaphore_bound c ls st :
 Proof.
   intros H. pose proof (inv_run _ _ _ H) as [[_ _ _ Hs Hc _ _ _ _ _] _]. repeat split; auto.
   apply cnt_le. intros [e b []]; cbn; auto.
+Qed.
+
+(* with at least one token the bookkeeping never gets stuck: while anything is in progress, some
+   internal step (not an arrival, not a cancellation, not a Wait) is enabled *)
+Theorem no_deadlock c ls st :
+  1 ≤ cap c → run (fstep c) finit ls = Some st → ¬ quiescent st →
+  ∃ l st', internal l = true ∧ fstep c st l = Some st'.
+Proof.
+  intros Hcap H Hnq. pose proof (inv_run _ _ _ H) as [[Hnp _ _ Hsem _ _ _ _ _ _] _].
+  unfold fstep. rewrite Hnp. unfold holding in Hsem.
+  destruct (gos st) as [|[e b ph] gs] eqn:Eg.
+  - destruct (disp st) as [|[e k] ds] eqn:Ed.
+    + destruct (rels st) as [|[[|e todo] n] rs] eqn:Er.
+      * destruct (parked st) as [|e ps] eqn:Ep; [destruct Hnq; repeat split; auto|].
+        exists (Release [e]). cbn. cbn. rewrite N.eqb_refl. eauto.
+      * exists (RelDone 0). cbn. cbn. eauto.
+      * exists (RelNext 0). cbn. cbn. eauto.
+    + exists (Spawn 0). cbn. cbn. cbn in Hsem. rewrite Hsem.
+      destruct (Nat.ltb_spec 0 (cap c)); [eauto|lia].
+  - destruct ph.
+    + exists (SendCall 0). cbn. cbn. eauto.
+    + exists (SendRet 0). cbn. cbn. eauto.
+    + exists (SemRelease 0). cbn. cbn. cbn in Hsem. rewrite Hsem. cbn. eauto.
+    + exists (WgDone 0). cbn. cbn. eauto.
 Qed.
